@@ -33,13 +33,23 @@ def gen(rng, tier):
         focus.update(comps=True, facilities=True)
     if rng.random() < 0.3:
         focus["contention"] = "low"
-    spec = C.gen_edit(rng, C.maybe_history(rng, C.forward_spec(rng, tier, focus), 0.25))
+    spec = C.gen_edit(rng, C.maybe_from_json(rng, C.maybe_history(rng, C.forward_spec(rng, tier, focus), 0.25)))
     if spec.get("edit") is not None and rng.random() < 0.5:
         spec["edit"] = sorted(set(spec["edit"]) | {0})
+    if spec.get("edit") is None and spec.get("history") is None and rng.random() < 0.12:
+        ab = spec["cfg"].get("absence") or G.gen_absence(rng, 12, rng.randint(2, 5))
+        if rng.random() < 0.4 and ab:
+            ab = list(ab) + [rng.choice(ab)]  # a step named twice (two calendars put together)
+        spec["cfg"]["absence"] = ab
+        spec["remove"] = True
     return spec
 
 
 def extra_candidates(spec):
+    if spec.get("remove"):
+        c = dict(spec)
+        c.pop("remove")
+        yield c
     for c in C.history_candidates(spec):
         yield c
     for c in C.edit_candidates(spec):
@@ -242,4 +252,23 @@ def run(spec):
                                 "after insert_absence_time_list(%s): remaining work of %s at inserted index %d is %r, the entry before is %r"
                                 % (spec["edit"], t.ID, i, rl[i], prev), i)
                         break
+    if spec.get("remove") and tr.out.ok and not spec.get("edit") and getattr(tr, "history", None) is None:
+        # the absence steps are deleted from the finished logs: what is left is the remaining work recorded at the working
+        # steps, in their order (nothing else may disappear, nothing may change)
+        from .. import director as D
+        res.count("remove_runs")
+        want = {}
+        for s_ in C.full_steps(tr.rec):
+            if s_.t not in tr.absence:
+                for tid_, v_ in s_.ph["recorded"]["T"].items():
+                    want.setdefault(tid_, []).append(v_[1])
+        o = D.call(lambda: tr.project.remove_absence_time_list())
+        if o.ok:
+            for t in tr.ix.tasks:
+                got = list(t.remaining_work_amount_record_list)
+                if got != want.get(t.ID, []):
+                    res.add("edit", "C02.after_remove_absence.remaining_work_log_is_not_the_working_steps",
+                            "after remove_absence_time_list() (absence list %s) the remaining-work log of %s is %s; the values recorded at the "
+                            "working steps were %s" % (spec["cfg"].get("absence"), t.ID, got[:14], want.get(t.ID, [])[:14]), None)
+                    break
     return C.finish(res, tr)
